@@ -8,7 +8,9 @@
     * element   `ElementStart` = `Span::from_prefix_name` of an `ElementStart` token whose local
                 name is the local name of the node's name id and whose prefix resolves (in the
                 element's own declarations, then the enclosing ones) to the name's namespace;
-                `ElementEnd` = the whole span of a `/>` or `</q>` token; every attribute child
+                `ElementEnd` = the whole span of a `/>` or `</q>` token, and an end tag `</q>` is
+                written with the prefix and the local name of that `ElementStart` token (`EndLink`;
+                `PfxDesc` carries `open_prefixes` against the open frames for it); every attribute child
                 has `AttributeName` / `AttributeValue` = name / value span of an `Attribute` token
                 whose decoded value (ID-normalised for the name id of xml:id) is the child's value;
     * text      `Text` = from the start of the first to the end of the last token of a RUN of
@@ -72,8 +74,15 @@ def StartFacts (ts : List Token) (g : SpanKey → Option Span) (env : Env) (stac
     g ⟨path, .elementStart⟩ = some (Span.fromPrefixName p l) ∧ NameFacts env stack false id p.text l.text) ∧
   ∀ k ∈ ks, ∀ n v, k.value = .attribute n v → AttrFacts ts g env stack path n v
 
+/-- An end tag `</p:l>` closes an element whose start tag - the `ElementStart` token whose name span is
+    recorded for the element - is written with the same prefix and the same local name
+    (`close_element`: same name id AND `open_prefixes.last() == prefix`). -/
+def EndLink (ts : List Token) (g : SpanKey → Option Span) (path : Path) (e : ElementEnd) : Prop :=
+  ∀ p l, e = .close p l → ∃ ps ls wsp, Token.elementStart ps ls wsp ∈ ts ∧
+    g ⟨path, .elementStart⟩ = some (Span.fromPrefixName ps ls) ∧ ps.text = p.text ∧ ls.text = l.text
+
 def EndFacts (ts : List Token) (g : SpanKey → Option Span) (path : Path) : Prop :=
-  ∃ e sp, Token.elementEnd e sp ∈ ts ∧ e ≠ .open ∧ g ⟨path, .elementEnd⟩ = some sp.span
+  ∃ e sp, Token.elementEnd e sp ∈ ts ∧ e ≠ .open ∧ g ⟨path, .elementEnd⟩ = some sp.span ∧ EndLink ts g path e
 
 /-! ### Text runs -/
 
@@ -186,6 +195,19 @@ def StackDesc (ts : List Token) (g : SpanKey → Option Span) (env : Env) : NsSt
   | stack, f :: rest =>
     FrameDesc ts g env stack (framesPath rest) f ∧ StackDesc ts g env (outerStack f.value stack) rest
 
+/-- `open_prefixes` against the open frames (current first): every open element was opened by an
+    `ElementStart` token whose name span is the recorded one, whose prefix AS WRITTEN is the entry of
+    `open_prefixes` and whose local name is that of the element's name id. -/
+def PfxDesc (ts : List Token) (g : SpanKey → Option Span) (env : Env) : List Frame → List Str → Prop
+  | [], _ => True
+  | f :: rest, ops =>
+    match f.value with
+    | .element id =>
+      (∃ p l sp, Token.elementStart p l sp ∈ ts ∧
+        g ⟨framesPath rest, .elementStart⟩ = some (Span.fromPrefixName p l) ∧ ops.head? = some p.text ∧
+        ∃ ns, env.names[id]? = some (l.text, ns)) ∧ PfxDesc ts g env rest ops.tail
+    | _ => PfxDesc ts g env rest ops
+
 /-! ### Which keys a step may not touch -/
 
 /-- `x` lies inside a finished subtree of one of the frames. -/
@@ -219,6 +241,7 @@ def EbFacts (ts : List Token) (eb : ElementBuilder) : Prop :=
 structure DInv (ts done : List Token) (b : Builder) : Prop where
   pre : done <+: ts
   stack : StackDesc ts b.spans.get b.env b.nsStack (b.cur :: b.parents)
+  pfx : PfxDesc ts b.spans.get b.env (b.cur :: b.parents) b.openPrefixes
   eb : ∀ e, b.eb = some e → EbFacts ts e
   opn : ∀ s ks more, b.cur.rkids = .node (.text s) ks :: more →
     OpenText done b.spans.get (b.curPath ++ [more.length]) s
